@@ -158,6 +158,85 @@ def divDyadic (p q : Int) : Option (Int × Nat) :=
   let (p', q') := if q' < 0 then (-p', -q') else (p', q')
   if isPow2 q'.natAbs then some (p', q'.natAbs.log2) else none
 
+/-- the four ordering comparisons -/
+def cmpOp (op : String) (l r : Val) : Outcome Val :=
+  let dec := fun (o : Ordering) =>
+    match op with
+    | "<" => o == .lt | ">" => o == .gt | "<=" => o != .gt | _ => o != .lt
+  match l, r with
+  | .str a, .str b => .ok (.bool (dec (strCmp a b)))
+  | .list _, .list _ => .oom "ordering of lists"
+  | _, _ =>
+    match num? l, num? r with
+    | some (a, ka, _), some (b, kb, _) => .ok (.bool (dec (cmpNum a ka b kb)))
+    | _, _ => .cerr .mismatch
+
+/-- `+`: concatenation when either side is a string, else numeric addition (or list concatenation) -/
+def addOp (l r : Val) : Outcome Val :=
+  match l, r with
+  | .str a, _ => do let b ← pyStr r; .ok (.str (a ++ b))
+  | _, .str b => do let a ← pyStr l; .ok (.str (a ++ b))
+  | .list a, .list b => .ok (.list (a ++ b))
+  | _, _ =>
+    match num? l, num? r with
+    | some (a, ka, fa), some (b, kb, fb) =>
+      let (x, y, k) := align a ka b kb
+      mkNum (fa || fb) (x + y) k
+    | _, _ => .cerr .mismatch
+
+/-- `- * / // % ^` on two numbers (`a/2^ka`, float-typed iff `fa`) -/
+def numOp (op : String) (a : Int) (ka : Nat) (fa : Bool) (b : Int) (kb : Nat) (fb : Bool) : Outcome Val :=
+  let isF := fa || fb
+  match op with
+  | "-" => let (x, y, k) := align a ka b kb; mkNum isF (x - y) k
+  | "*" => mkNum isF (a * b) (ka + kb)
+  | "/" =>
+    if b == 0 then .cerr .divideByZero else
+    -- (a/2^ka) / (b/2^kb) = (a * 2^kb) / (b * 2^ka)
+    match divDyadic (a * 2 ^ kb) (b * 2 ^ ka) with
+    | some (p, k) => mkFlt p k
+    | none => .oom "inexact division"
+  | "//" =>
+    if b == 0 then .cerr .divideByZero else
+    let (x, y, _) := align a ka b kb
+    mkNum isF (Int.fdiv x y) 0
+  | "%" =>
+    if b == 0 then .cerr .divideByZero else
+    let (x, y, k) := align a ka b kb
+    mkNum isF (Int.fmod x y) k
+  | "^" =>
+    if kb != 0 then .oom "non-integral exponent" else
+    if b ≥ 0 then
+      if b > 1000 then .oom "huge exponent" else
+      mkNum isF (ipow a b.toNat) (ka * b.toNat)
+    else
+      if a == 0 then .cerr .divideByZero else
+      if b < -1000 then .oom "huge exponent" else
+      -- (a/2^ka)^b = 2^(ka*|b|) / a^|b| ; Python's result is a float
+      match divDyadic (2 ^ (ka * b.natAbs)) (ipow a b.natAbs) with
+      | some (p, k) => mkFlt p k
+      | none => .oom "inexact power"
+  | _ => .oom "unknown operator"
+
+/-- `- * / // % ^` : the left operand's type must be exactly int or float -/
+def arithOp (op : String) (l r : Val) : Outcome Val :=
+  match l with
+  | .int _ | .flt _ _ =>
+    match num? l with
+    | none => .cerr .mismatch
+    | some (a, ka, fa) =>
+      match op, r with
+      | "*", .str s =>
+        if fa then .cerr .mismatch
+        else if a.toNat * s.length > 100000 then .oom "huge string repetition"
+        else .ok (.str ((List.replicate a.toNat s).flatten))
+      | "*", .list _ => if fa then .cerr .mismatch else .oom "list repetition"
+      | _, _ =>
+        match num? r with
+        | none => .cerr .mismatch
+        | some (b, kb, fb) => numOp op a ka fa b kb fb
+  | _ => .cerr .mismatch
+
 /-- `Operator.solve_operand` of the three operator classes, with the `fix:` wrapper of
     `Operator.solve` applied: a host TypeError/ArithmeticError is `mismatch`,
     ZeroDivisionError is `divideByZero`. -/
@@ -169,77 +248,9 @@ def binop (op : String) (l r : Val) : Outcome Val :=
     | _ => .ok (.list [l, r])
   | "==" => if isList l && isList r then .oom "equality of lists" else .ok (.bool (pyEq l r))
   | "!=" => if isList l && isList r then .oom "equality of lists" else .ok (.bool (!pyEq l r))
-  | "<" | ">" | "<=" | ">=" =>
-    let dec := fun (o : Ordering) =>
-      match op with
-      | "<" => o == .lt | ">" => o == .gt | "<=" => o != .gt | _ => o != .lt
-    match l, r with
-    | .str a, .str b => .ok (.bool (dec (strCmp a b)))
-    | .list _, .list _ => .oom "ordering of lists"
-    | _, _ =>
-      match num? l, num? r with
-      | some (a, ka, _), some (b, kb, _) => .ok (.bool (dec (cmpNum a ka b kb)))
-      | _, _ => .cerr .mismatch
-  | "+" =>
-    match l, r with
-    | .str a, _ => do let b ← pyStr r; .ok (.str (a ++ b))
-    | _, .str b => do let a ← pyStr l; .ok (.str (a ++ b))
-    | .list a, .list b => .ok (.list (a ++ b))
-    | _, _ =>
-      match num? l, num? r with
-      | some (a, ka, fa), some (b, kb, fb) =>
-        let (x, y, k) := align a ka b kb
-        mkNum (fa || fb) (x + y) k
-      | _, _ => .cerr .mismatch
-  | _ =>
-    -- `- * / // % ^` : the left operand's type must be exactly int or float
-    match l with
-    | .int _ | .flt _ _ =>
-      match num? l with
-      | none => .cerr .mismatch
-      | some (a, ka, fa) =>
-      match op, r with
-      | "*", .str s =>
-        if fa then .cerr .mismatch
-        else if a.toNat * s.length > 100000 then .oom "huge string repetition"
-        else .ok (.str ((List.replicate a.toNat s).flatten))
-      | "*", .list _ => if fa then .cerr .mismatch else .oom "list repetition"
-      | _, _ =>
-      match num? r with
-      | none => .cerr .mismatch
-      | some (b, kb, fb) =>
-        let isF := fa || fb
-        match op with
-        | "-" => let (x, y, k) := align a ka b kb; mkNum isF (x - y) k
-        | "*" => mkNum isF (a * b) (ka + kb)
-        | "/" =>
-          if b == 0 then .cerr .divideByZero else
-          -- (a/2^ka) / (b/2^kb) = (a * 2^kb) / (b * 2^ka)
-          match divDyadic (a * 2 ^ kb) (b * 2 ^ ka) with
-          | some (p, k) => mkFlt p k
-          | none => .oom "inexact division"
-        | "//" =>
-          if b == 0 then .cerr .divideByZero else
-          let (x, y, _) := align a ka b kb
-          mkNum isF (Int.fdiv x y) 0
-        | "%" =>
-          if b == 0 then .cerr .divideByZero else
-          let (x, y, k) := align a ka b kb
-          mkNum isF (Int.fmod x y) k
-        | "^" =>
-          if kb != 0 then .oom "non-integral exponent" else
-          if b ≥ 0 then
-            if b > 1000 then .oom "huge exponent" else
-            mkNum isF (ipow a b.toNat) (ka * b.toNat)
-          else
-            if a == 0 then .cerr .divideByZero else
-            if b < -1000 then .oom "huge exponent" else
-            -- (a/2^ka)^b = 2^(ka*|b|) / a^|b| ; Python's result is a float
-            match divDyadic (2 ^ (ka * b.natAbs)) (ipow a b.natAbs) with
-            | some (p, k) => mkFlt p k
-            | none => .oom "inexact power"
-        | _ => .oom "unknown operator"
-    | _ => .cerr .mismatch
+  | "<" | ">" | "<=" | ">=" => cmpOp op l r
+  | "+" => addOp l r
+  | _ => arithOp op l r
 
 /-- float → int normalisation applied by `Tokenizer.solve` at every parenthesis level -/
 def normalise : Val → Val
